@@ -1,3 +1,339 @@
-/-! # C03 — property theorems (to be written) -/
+import BddVerif.Lemmas.NestedSim
+/-!
+# C03 — quantification and nested apply equal operate-then-project
+
+Property theorems about the executable model `Model/Nested.lean` (helper lemmas:
+`Lemmas/NestedBasic.lean`, `Lemmas/NestedRealign.lean`, `Lemmas/NestedQ.lean`, `Lemmas/NestedSim.lean`).
+The tables `Gen.or_`, `Gen.and_` are regenerated from `src/op_function.rs` on every run.
+-/
 namespace B.Props.C03
+open B B.Gen
+
+/-! ## 1. `var_exists` / `var_for_all` -/
+
+/-- `var_exists(x)` returns exactly the canonical array of `v ↦ A(v[x:=1]) ∨ A(v[x:=0])`
+    (operands only need to be well-formed by level; `x < n` is what `check_flip_bounds` enforces) -/
+theorem var_exists_canon (A : Arr) (n x : Nat) (hA : WFo A n) (hx : x < n) :
+    varExists A x =
+      canon n (fun v => evW A n (upd v x true) (root A) || evW A n (upd v x false) (root A)) :=
+  selfFlip_eq_canon A n x or_ (fun a b => a || b) hA hx or_consistent Bool.or_comm
+
+/-- `var_for_all(x)` returns exactly the canonical array of `v ↦ A(v[x:=1]) ∧ A(v[x:=0])` -/
+theorem var_for_all_canon (A : Arr) (n x : Nat) (hA : WFo A n) (hx : x < n) :
+    varForAll A x =
+      canon n (fun v => evW A n (upd v x true) (root A) && evW A n (upd v x false) (root A)) :=
+  selfFlip_eq_canon A n x and_ (fun a b => a && b) hA hx and_consistent Bool.and_comm
+
+/-- a valuation satisfies `var_exists(x)` iff some re-assignment of `x` satisfies the operand -/
+theorem var_exists_spec (A : Arr) (n x : Nat) (hA : WFo A n) (hx : x < n) (v : Nat → Bool) :
+    den (varExists A x) v = true ↔ ∃ b, evW A n (upd v x b) (root A) = true := by
+  rw [var_exists_canon A n x hA hx,
+    den_canon n _ (proj_dep A n x (fun a b => a || b) hA) v]
+  constructor
+  · intro h
+    rcases Bool.or_eq_true _ _ |>.mp h with h | h
+    · exact ⟨true, h⟩
+    · exact ⟨false, h⟩
+  · rintro ⟨b, h⟩
+    cases b <;> simp [h]
+
+/-- a valuation satisfies `var_for_all(x)` iff every re-assignment of `x` satisfies the operand -/
+theorem var_for_all_spec (A : Arr) (n x : Nat) (hA : WFo A n) (hx : x < n) (v : Nat → Bool) :
+    den (varForAll A x) v = true ↔ ∀ b, evW A n (upd v x b) (root A) = true := by
+  rw [var_for_all_canon A n x hA hx,
+    den_canon n _ (proj_dep A n x (fun a b => a && b) hA) v]
+  constructor
+  · intro h b
+    have := Bool.and_eq_true _ _ |>.mp h
+    cases b
+    · exact this.2
+    · exact this.1
+  · intro h
+    simp [h true, h false]
+
+/-- the results of `var_exists(x)` / `var_for_all(x)` do not depend on `x` -/
+theorem var_quant_indep (A : Arr) (n x : Nat) (hA : WFo A n) (hx : x < n) (v : Nat → Bool) (b : Bool) :
+    den (varExists A x) (upd v x b) = den (varExists A x) v ∧
+    den (varForAll A x) (upd v x b) = den (varForAll A x) v := by
+  have hu : ∀ c, upd (upd v x b) x c = upd v x c := by
+    intro c; funext j; by_cases h : j = x <;> simp [upd, h]
+  rw [var_exists_canon A n x hA hx, var_for_all_canon A n x hA hx,
+    den_canon n _ (proj_dep A n x (fun a b => a || b) hA),
+    den_canon n _ (proj_dep A n x (fun a b => a || b) hA),
+    den_canon n _ (proj_dep A n x (fun a b => a && b) hA),
+    den_canon n _ (proj_dep A n x (fun a b => a && b) hA)]
+  simp only [hu]
+  exact ⟨trivial, trivial⟩
+
+/-- non-vacuity: `∃ x0. (x0 ∧ x2)` over three variables is literally the array of `x2` -/
+example : varExists exX0X2 0 = #[⟨3, 0, 0⟩, ⟨3, 1, 1⟩, ⟨2, 0, 1⟩] :=
+  (var_exists_canon exX0X2 3 0 exX0X2_wf (by omega)).trans (by decide)
+
+/-- ... and `∀ x0. (x0 ∧ x2)` is the one-node false array -/
+example : varForAll exX0X2 0 = #[⟨3, 0, 0⟩] :=
+  (var_for_all_canon exX0X2 3 0 exX0X2_wf (by omega)).trans (by decide)
+
+/-! ## 2. `fix_bdd_alignment` (L5) -/
+
+/-- re-alignment of a reduced post-order array (any amount of unreachable garbage) from pointer `r`
+    is exactly the canonical array of the function denoted by `r` -/
+theorem realign_canon (A : Arr) (n r : Nat) (hA : Red A n) (hn : numVars A = n) (hr : r < A.size) :
+    realign A r = canon n (fun v => ev A v r) :=
+  realign_sim hA hn r hr
+
+/-- re-alignment from the last node leaves a canonical array unchanged, and conversely a reduced array
+    that re-alignment leaves unchanged is canonical -/
+theorem realign_fixpoint_iff_canonical (A : Arr) (n : Nat) (hA : Red A n) (hn : numVars A = n) :
+    realign A (root A) = A ↔ A = canon n (den A) := by
+  have h := realign_sim hA hn (root A) (by have := hA.size2; unfold root; omega)
+  have hd : (fun v => ev A v (root A)) = den A := rfl
+  rw [hd] at h
+  rw [h]
+  exact eq_comm
+
+/-- garbage is dropped: the re-aligned array depends only on the function of the chosen root -/
+theorem realign_unique (A A' : Arr) (n r r' : Nat) (hA : Red A n) (hA' : Red A' n)
+    (hn : numVars A = n) (hn' : numVars A' = n) (hr : r < A.size) (hr' : r' < A'.size)
+    (hsem : ∀ v, ev A v r = ev A' v r') : realign A r = realign A' r' := by
+  rw [realign_sim hA hn r hr, realign_sim hA' hn' r' hr']
+  exact canon_congr hsem
+
+/-- a misaligned array in the spirit of the library's unit test `test_bdd_alignment_fix`: v1 ∧ ¬v2 ∧ v3
+    with an unreachable extra node (index 4) before the real root -/
+def exMisaligned : Arr := #[⟨3, 0, 0⟩, ⟨3, 1, 1⟩, ⟨2, 0, 1⟩, ⟨1, 2, 0⟩, ⟨0, 1, 0⟩, ⟨0, 0, 3⟩]
+
+/-- executable `Red` check used for the example below -/
+def redB (A : Arr) (n : Nat) : Bool :=
+  decide (2 ≤ A.size) &&
+  (List.range A.size).all (fun p => decide (p < 2) ||
+    (match A[p]? with
+     | none => true
+     | some nd => decide (nd.var < n) && decide (nd.low < p) && decide (nd.high < p) &&
+        decide (nd.low ≠ nd.high) && decide (nd.var < varOf A n nd.low) && decide (nd.var < varOf A n nd.high)) &&
+    (List.range A.size).all (fun q => decide (q < 2) || decide (p = q) || (A[p]? != A[q]?)))
+
+theorem redB_sound {A : Arr} {n : Nat} (h : redB A n = true) : Red A n := by
+  unfold redB at h
+  simp only [Bool.and_eq_true, Bool.or_eq_true, decide_eq_true_eq, List.all_eq_true, List.mem_range] at h
+  obtain ⟨hs, hin⟩ := h
+  have lt_of_some : ∀ p nd, A[p]? = some nd → p < A.size := by
+    intro p nd hnd
+    rcases Nat.lt_or_ge p A.size with h' | h'
+    · exact h'
+    · simp [Array.getElem?_eq_none h'] at hnd
+  refine ⟨hs, ?_, ?_⟩
+  · intro p nd hp hnd
+    rcases hin p (lt_of_some p nd hnd) with h' | ⟨h', _⟩
+    · omega
+    · rw [hnd] at h'
+      simp only [Bool.and_eq_true, decide_eq_true_eq] at h'
+      obtain ⟨⟨⟨⟨⟨a, b⟩, c⟩, d⟩, e⟩, f⟩ := h'
+      exact ⟨a, b, c, d, e, f⟩
+  · intro p q nd hp hq hnp hnq
+    rcases hin p (lt_of_some p nd hnp) with h' | ⟨_, h'⟩
+    · omega
+    · rcases h' q (lt_of_some q nd hnq) with h'' | h''
+      · rcases h'' with h'' | h''
+        · omega
+        · exact h''
+      · rw [hnp, hnq] at h''; simp at h''
+
+/-- non-vacuity of `realign_canon` on an array with an unreachable node in a non-canonical order:
+    the result is the canonical 5-node array of v1 ∧ ¬v2 ∧ v3 -/
+example : realign exMisaligned 5 = #[⟨3, 0, 0⟩, ⟨3, 1, 1⟩, ⟨2, 0, 1⟩, ⟨1, 2, 0⟩, ⟨0, 0, 3⟩] :=
+  (realign_canon exMisaligned 3 5 (redB_sound (by decide)) rfl (by decide)).trans (by decide)
+
+/-! ## 3./4. `nested_apply`: semantics and canonical form (L6) -/
+
+/-- the function of the first `n` variables that a pair of operands and a connective denote -/
+def outerFn (L R : Arr) (n : Nat) (c : Bool → Bool → Bool) : (Nat → Bool) → Bool :=
+  fun v => c (evW L n v (root L)) (evW R n v (root R))
+
+theorem outerFn_dep (L R : Arr) (n : Nat) (c : Bool → Bool → Bool) (hL : WFo L n) (hR : WFo R n) :
+    DepOn 0 n (outerFn L R n c) := by
+  intro v w hvw
+  unfold outerFn
+  congr 1
+  · exact evW_indep hL n _ (root_lt hL) (by omega) v w (fun i _ hin => hvw i (Nat.zero_le _) hin)
+  · exact evW_indep hR n _ (root_lt hR) (by omega) v w (fun i _ hin => hvw i (Nat.zero_le _) hin)
+
+theorem proj_dep' (trig : Nat → Bool) (d : Bool → Bool → Bool) (n : Nat) (f : (Nat → Bool) → Bool)
+    (hf : DepOn 0 n f) (v w : Nat → Bool) (h : ∀ i, i < n → v i = w i) :
+    Qn trig d n f v = Qn trig d n f w :=
+  Qn_dep trig d 0 n f hf v w (fun i _ hin => h i hin)
+
+/-- **`nested_canon`**: for operands well-formed by level, an outer table consistent with `c`, an inner
+    table consistent with an idempotent connective `d` (`or`, `and`), `binary_op_nested` returns exactly
+    the canonical array of the projection `Qn trig d n` (fold of `d` over both values of every triggered
+    variable) of the outer connective of the operands -/
+theorem nested_canon (L R : Arr) (n : Nat) (trig : Nat → Bool) (outer inner : Op2) (c d : Bool → Bool → Bool)
+    (hL : WFo L n) (hR : WFo R n) (hc : Consistent outer c) (hd : Consistent inner d) (hid : ∀ a, d a a = a) :
+    nestedApply L R trig outer inner = canon n (Qn trig d n (outerFn L R n c)) :=
+  nestedApply_eq_canon L R n trig outer inner c d hL hR hc hd hid
+
+/-- `nested_den`: the denotation of the result is the projection of the outer result -/
+theorem nested_den (L R : Arr) (n : Nat) (trig : Nat → Bool) (outer inner : Op2) (c d : Bool → Bool → Bool)
+    (hL : WFo L n) (hR : WFo R n) (hc : Consistent outer c) (hd : Consistent inner d) (hid : ∀ a, d a a = a)
+    (v : Nat → Bool) :
+    den (nestedApply L R trig outer inner) v = Qn trig d n (outerFn L R n c) v := by
+  rw [nested_canon L R n trig outer inner c d hL hR hc hd hid]
+  exact den_canon n _ (proj_dep' trig d n _ (outerFn_dep L R n c hL hR)) v
+
+/-- the result does not depend on a triggered variable -/
+theorem nested_indep (L R : Arr) (n : Nat) (trig : Nat → Bool) (outer inner : Op2) (c d : Bool → Bool → Bool)
+    (hL : WFo L n) (hR : WFo R n) (hc : Consistent outer c) (hd : Consistent inner d) (hid : ∀ a, d a a = a)
+    (x : Nat) (hx : trig x = true) (hxn : x < n) (v : Nat → Bool) (b : Bool) :
+    den (nestedApply L R trig outer inner) (upd v x b) = den (nestedApply L R trig outer inner) v := by
+  rw [nested_den L R n trig outer inner c d hL hR hc hd hid, nested_den L R n trig outer inner c d hL hR hc hd hid]
+  exact Qn_indep trig d n x hx hxn _ v b
+
+/-- two tables consistent with the same connectives (e.g. the library's `or` and a fully lazy `or`
+    table) and two trigger predicates that agree below `n` give the identical array -/
+theorem nested_tables_irrelevant (L R : Arr) (n : Nat) (trig : Nat → Bool)
+    (outer outer' inner inner' : Op2) (c d : Bool → Bool → Bool)
+    (hL : WFo L n) (hR : WFo R n) (hc : Consistent outer c) (hc' : Consistent outer' c)
+    (hd : Consistent inner d) (hd' : Consistent inner' d) (hid : ∀ a, d a a = a) :
+    nestedApply L R trig outer inner = nestedApply L R trig outer' inner' := by
+  rw [nested_canon L R n trig outer inner c d hL hR hc hd hid,
+    nested_canon L R n trig outer' inner' c d hL hR hc' hd' hid]
+
+/-- `binary_op_with_exists` -/
+theorem binary_op_with_exists_canon (L R : Arr) (n : Nat) (op : Op2) (c : Bool → Bool → Bool) (vars : List Nat)
+    (hL : WFo L n) (hR : WFo R n) (hc : Consistent op c) :
+    binaryOpWithExists L R op vars =
+      canon n (Qn (trigOfList vars) (fun a b => a || b) n (outerFn L R n c)) :=
+  nested_canon L R n _ op or_ c _ hL hR hc or_consistent Bool.or_self
+
+/-- `binary_op_with_for_all` -/
+theorem binary_op_with_for_all_canon (L R : Arr) (n : Nat) (op : Op2) (c : Bool → Bool → Bool) (vars : List Nat)
+    (hL : WFo L n) (hR : WFo R n) (hc : Consistent op c) :
+    binaryOpWithForAll L R op vars =
+      canon n (Qn (trigOfList vars) (fun a b => a && b) n (outerFn L R n c)) :=
+  nested_canon L R n _ op and_ c _ hL hR hc and_consistent Bool.and_self
+
+theorem trigOfList_iff (vars : List Nat) (i : Nat) : trigOfList vars i = true ↔ i ∈ vars := by
+  simp [trigOfList]
+
+/-- **`exists_spec`**: a valuation satisfies `binary_op_with_exists(L, R, op, vars)` iff SOME re-assignment
+    of the listed variables satisfies the outer result -/
+theorem binary_op_with_exists_spec (L R : Arr) (n : Nat) (op : Op2) (c : Bool → Bool → Bool) (vars : List Nat)
+    (hL : WFo L n) (hR : WFo R n) (hc : Consistent op c) (v : Nat → Bool) :
+    den (binaryOpWithExists L R op vars) v = true ↔
+      ∃ w : Nat → Bool, (∀ i, ¬ (i < n ∧ i ∈ vars) → w i = v i) ∧
+        c (evW L n w (root L)) (evW R n w (root R)) = true := by
+  rw [binary_op_with_exists_canon L R n op c vars hL hR hc,
+    den_canon n _ (proj_dep' _ _ n _ (outerFn_dep L R n c hL hR)) v, Qn_or_iff]
+  simp only [trigOfList_iff]
+  rfl
+
+/-- **`for_all_spec`**: a valuation satisfies `binary_op_with_for_all(L, R, op, vars)` iff EVERY
+    re-assignment of the listed variables satisfies the outer result -/
+theorem binary_op_with_for_all_spec (L R : Arr) (n : Nat) (op : Op2) (c : Bool → Bool → Bool) (vars : List Nat)
+    (hL : WFo L n) (hR : WFo R n) (hc : Consistent op c) (v : Nat → Bool) :
+    den (binaryOpWithForAll L R op vars) v = true ↔
+      ∀ w : Nat → Bool, (∀ i, ¬ (i < n ∧ i ∈ vars) → w i = v i) →
+        c (evW L n w (root L)) (evW R n w (root R)) = true := by
+  rw [binary_op_with_for_all_canon L R n op c vars hL hR hc,
+    den_canon n _ (proj_dep' _ _ n _ (outerFn_dep L R n c hL hR)) v, Qn_and_iff]
+  simp only [trigOfList_iff]
+  rfl
+
+/-- `Bdd::exists` (= `project`): existential projection of the operand itself -/
+theorem exists_spec (A : Arr) (n : Nat) (vars : List Nat) (hA : WFo A n) (v : Nat → Bool) :
+    den (bddExists A vars) v = true ↔
+      ∃ w : Nat → Bool, (∀ i, ¬ (i < n ∧ i ∈ vars) → w i = v i) ∧ evW A n w (root A) = true := by
+  unfold bddExists
+  rw [binary_op_with_exists_spec A A n and_ (fun a b => a && b) vars hA hA and_consistent v]
+  simp only [Bool.and_self]
+
+/-- `Bdd::for_all`: universal projection of the operand itself -/
+theorem for_all_spec (A : Arr) (n : Nat) (vars : List Nat) (hA : WFo A n) (v : Nat → Bool) :
+    den (bddForAll A vars) v = true ↔
+      ∀ w : Nat → Bool, (∀ i, ¬ (i < n ∧ i ∈ vars) → w i = v i) → evW A n w (root A) = true := by
+  unfold bddForAll
+  rw [binary_op_with_for_all_spec A A n and_ (fun a b => a && b) vars hA hA and_consistent v]
+  simp only [Bool.and_self]
+
+/-- `Bdd::exists` / `Bdd::for_all` return the canonical array of the projection of the operand -/
+theorem exists_for_all_canon (A : Arr) (n : Nat) (vars : List Nat) (hA : WFo A n) :
+    bddExists A vars = canon n (Qn (trigOfList vars) (fun a b => a || b) n (fun v => evW A n v (root A))) ∧
+    bddForAll A vars = canon n (Qn (trigOfList vars) (fun a b => a && b) n (fun v => evW A n v (root A))) := by
+  have e : outerFn A A n (fun a b => a && b) = fun v => evW A n v (root A) := by
+    funext v; simp [outerFn]
+  unfold bddExists bddForAll
+  rw [binary_op_with_exists_canon A A n and_ (fun a b => a && b) vars hA hA and_consistent,
+    binary_op_with_for_all_canon A A n and_ (fun a b => a && b) vars hA hA and_consistent, e]
+  exact ⟨rfl, rfl⟩
+
+/-- the quantified results do not depend on a listed variable -/
+theorem quant_indep (L R : Arr) (n : Nat) (op : Op2) (c : Bool → Bool → Bool) (vars : List Nat)
+    (hL : WFo L n) (hR : WFo R n) (hc : Consistent op c) (x : Nat) (hx : x ∈ vars) (hxn : x < n)
+    (v : Nat → Bool) (b : Bool) :
+    den (binaryOpWithExists L R op vars) (upd v x b) = den (binaryOpWithExists L R op vars) v ∧
+    den (binaryOpWithForAll L R op vars) (upd v x b) = den (binaryOpWithForAll L R op vars) v :=
+  ⟨nested_indep L R n _ op or_ c _ hL hR hc or_consistent Bool.or_self x ((trigOfList_iff vars x).2 hx) hxn v b,
+   nested_indep L R n _ op and_ c _ hL hR hc and_consistent Bool.and_self x ((trigOfList_iff vars x).2 hx) hxn v b⟩
+
+/-- order and repetition of the variable list are irrelevant: two lists with the same elements give the
+    identical array (no hypothesis on the operands is needed: the list is only used through membership) -/
+theorem quant_list_invariant (L R : Arr) (op : Op2) (vs1 vs2 : List Nat) (h : ∀ x, x ∈ vs1 ↔ x ∈ vs2) :
+    binaryOpWithExists L R op vs1 = binaryOpWithExists L R op vs2 ∧
+    binaryOpWithForAll L R op vs1 = binaryOpWithForAll L R op vs2 ∧
+    bddExists L vs1 = bddExists L vs2 ∧ bddForAll L vs1 = bddForAll L vs2 := by
+  have : trigOfList vs1 = trigOfList vs2 := by
+    funext x
+    rw [Bool.eq_iff_iff, trigOfList_iff, trigOfList_iff]; exact h x
+  unfold bddExists bddForAll binaryOpWithExists binaryOpWithForAll
+  rw [this]
+  exact ⟨rfl, rfl, rfl, rfl⟩
+
+/-- two routes to the same function: `exists([x])` and `var_exists(x)` return the identical array, and so do
+    `for_all([x])` and `var_for_all(x)` -/
+theorem exists_singleton_eq_var_exists (A : Arr) (n x : Nat) (hA : WFo A n) (hx : x < n) :
+    bddExists A [x] = varExists A x ∧ bddForAll A [x] = varForAll A x := by
+  have ht : ∀ i, trigOfList [x] i = true ↔ i = x := by
+    intro i; rw [trigOfList_iff]; simp
+  have hf := outerFn_dep A A n (fun a b => a && b) hA hA
+  constructor
+  · unfold bddExists
+    rw [binary_op_with_exists_canon A A n and_ (fun a b => a && b) [x] hA hA and_consistent,
+      var_exists_canon A n x hA hx]
+    apply canon_congr
+    intro v
+    rw [Qn_single _ n x hx _ ht _ hf v]
+    simp only [outerFn, Bool.and_self]
+    exact Bool.or_comm _ _
+  · unfold bddForAll
+    rw [binary_op_with_for_all_canon A A n and_ (fun a b => a && b) [x] hA hA and_consistent,
+      var_for_all_canon A n x hA hx]
+    apply canon_congr
+    intro v
+    rw [Qn_single _ n x hx _ ht _ hf v]
+    simp only [outerFn, Bool.and_self]
+    exact Bool.and_comm _ _
+
+/-! ### non-vacuity -/
+
+/-- all hypotheses of `nested_canon` are satisfiable on non-trivial operands (level-skipping left operand,
+    lazy outer table, the regenerated `or` as inner table, trigger on variable 1); the theorem pins the
+    model's concrete output: `∃ x1. (x0 ∧ x2) ∧ x1` = `x0 ∧ x2` -/
+example : nestedApply exX0X2 exX1 (fun x => x == 1) andLazy or_ =
+    #[⟨3, 0, 0⟩, ⟨3, 1, 1⟩, ⟨2, 0, 1⟩, ⟨0, 0, 2⟩] :=
+  (nested_canon exX0X2 exX1 3 _ andLazy or_ (fun a b => a && b) (fun a b => a || b)
+    exX0X2_wf exX1_wf andLazy_consistent or_consistent Bool.or_self).trans (by decide)
+
+/-- `∀ x1. (x0 ∧ x2) ∧ x1` is the one-node false array -/
+example : binaryOpWithForAll exX0X2 exX1 andLazy [1, 1] = #[⟨3, 0, 0⟩] :=
+  (binary_op_with_for_all_canon exX0X2 exX1 3 andLazy (fun a b => a && b) [1, 1]
+    exX0X2_wf exX1_wf andLazy_consistent).trans (by decide)
+
+/-- `exists` over all variables of a satisfiable function is the two-node true array -/
+example : bddExists exX0X2 [2, 0, 1, 0] = #[⟨3, 0, 0⟩, ⟨3, 1, 1⟩] :=
+  (binary_op_with_exists_canon exX0X2 exX0X2 3 and_ (fun a b => a && b) [2, 0, 1, 0]
+    exX0X2_wf exX0X2_wf and_consistent).trans (by decide)
+
+example : ∃ w : Nat → Bool, (∀ i, ¬ (i < 3 ∧ i ∈ [0]) → w i = (fun j => j == 2) i) ∧
+    evW exX0X2 3 w (root exX0X2) = true :=
+  ⟨fun j => j == 2 || j == 0, by intro i hi; by_cases h : i = 0 <;> simp_all, by decide⟩
+
 end B.Props.C03
